@@ -19,7 +19,7 @@ class C06(Config):
     n_tags = None
     shard_size = 150
     harness_timeout = 3000
-    classes = {1: "C06-F1", 2: "C06-F2"}
+    classes = {1: "C06-F1", 2: "C06-F2", 3: "C06-F4"}
     rule = ("pure stream: AnchorRetention::retains / retained_in_range / batch_ensure_heights / ensure_checkpoints on an "
             "exhaustive lattice around 0, the ZIP 318 interval and u32::MAX plus random policies; mem stream: the tree stage "
             "of put_blocks composed from its public parts on in-memory ShardTrees (budgets 1..20, chunk sizes 1..64); wallet "
@@ -45,8 +45,8 @@ class C06(Config):
     partial_clauses = [
         "root_at_checkpoint_id == true root and witness validity are evaluated on the implementation (observed booleans); "
         "they rest on the shardtree crate and the SQLite ShardStore, which are not modelled",
-        "subtree-root insertion (put_*_subtree_roots) is not exercised: a shard has 2^16 leaves",
-        "truncate_to_chain_state / rewind_to_chain_state are not modelled (only truncate_to_height)",
+        "put_*_subtree_roots is modelled as the identity on the ledger; its effect on the cap is only observed through the root/witness clauses (histories start from birthday frontiers just below a shard end)",
+        "rewind_to_chain_state: only the tree part is modelled (birthday resets and the scan queue are not)",
     ]
 
     @staticmethod
